@@ -373,6 +373,8 @@ def check(case):
             cmp_feature(Cmp(res, "parse_file"), model2, facts2)
             res.evals = 2
             res.label("via-file")
+            if model2 is not None and not res.violations:
+                check_parser_reuse(res, model2, facts2, text2)
         classify(res, feat, facts, text)
         if kind == "alias":
             res.label("alias")
@@ -384,6 +386,45 @@ def check(case):
     else:
         raise ValueError(kind)
     return res
+
+
+def _scenario_facts(facts):
+    for f in facts["items"]:
+        for g in (f["items"] if f["kind"] == "rule" else [f]):
+            yield g
+
+
+def check_parser_reuse(res, feature, facts, text):
+    """History: the parser object that parsed a file with a '# language:' header is used again for a
+    steps text in that language -- what Context.execute_steps() does (feature.parser.parse_steps)."""
+    from behave import i18n
+    from behave.parser import ParserError
+    kws = i18n.languages[facts["language"]]
+    primary = set(k.strip() for kind in ("given", "when", "then") for k in kws[kind]) - \
+        set(k.strip() for kind in ("and", "but") for k in kws[kind]) - set([u"*"])
+    lines = text.splitlines()
+    for sc in _scenario_facts(facts):
+        steps = sc.get("steps") or []
+        if not steps or any(s["text"] is not None or s["table"] is not None for s in steps):
+            continue
+        if steps[0]["keyword"] not in primary:
+            continue        # its type would be inherited from a step outside this text
+        part = u"\n".join(lines[s["line"] - 1] for s in steps)
+        try:
+            got = feature.parser.parse_steps(part)
+        except ParserError as e:
+            res.fail("C04.parser-reuse.rejected", "feature.parser (language %s) rejects the steps %r of its own feature: %s"
+                     % (facts["language"], part, str(e).replace("\n", " ")))
+            return
+        want = [(s["keyword"], s["step_type"], s["name"]) for s in steps]
+        have = [(s.keyword, s.step_type, s.name) for s in got]
+        if want != have:
+            res.fail("C04.parser-reuse.steps", "feature.parser (language %s) parses %r as %r, expected %r"
+                     % (facts["language"], part, have, want))
+        res.label("parser-reuse")
+        if facts["language"] != "en":
+            res.label("parser-reuse:non-english")
+        return
 
 
 def check_describe_roundtrip(res, feature):
@@ -582,7 +623,7 @@ def explore(rec):
 
 def required_labels(tier):
     return ["rule", "outline>=2examples", "docstring", "escaped-pipe", "non-english", "noise", "and-but-star", "alias",
-            "via-file", "describe-roundtrip", "entry:steps", "entry:scenario", "entry:rule", "entry:tags"]
+            "via-file", "parser-reuse", "parser-reuse:non-english", "describe-roundtrip", "entry:steps", "entry:scenario", "entry:rule", "entry:tags"]
 
 
 KNOWN_PREDICATES = {}
